@@ -1283,7 +1283,13 @@ func (la *LockAnalysis) checkLocalGuard(f *Func, r *funcLocks, id *ast.Ident, st
 	held := la.holds(st, q, write)
 	acc := guardedAccess{F: f, Node: id, Field: FieldID{"local", root.Name, obj.Name()}, Lock: lockName, Held: held, Write: write, Locks: st.String()}
 	if !held {
-		if why, ok := lockExceptions[root.Name+"/"+obj.Name()+"/"+accessCtx(la.p, id)]; ok {
+		why, tabled := lockExceptions[root.Name+"/"+obj.Name()+"/"+accessCtx(la.p, id)]
+		if tabled && !la.publishedByAtomic(f, obj) {
+			tabled = false
+			la.escapes = append(la.escapes, escapeReport{F: f, Pos: id.Pos(), What: "premise",
+				Detail: fmt.Sprintf("%s reads %s on its lock-free fast path; that is safe only while the atomic counter is stored AFTER the guarded value was written under the mutex, and in this version an atomic store is not dominated by the write: a caller that takes the fast path can read the value while it is being written (data race) or before it exists", root.Name, obj.Name())})
+		}
+		if tabled {
 			acc.Exempt = why
 			acc.Held = true
 		} else {
@@ -1615,4 +1621,43 @@ func (la *LockAnalysis) freshPath(f *Func, ap accessPath) bool {
 		fresh = assigned
 	}
 	return fresh
+}
+
+// publishedByAtomic validates the premise of the limitExec fast-path
+// exception: inside the closure every atomic Store on the counter comes after
+// (is dominated by) the last assignment of the guarded variable, so a reader
+// that observes the stored counter also observes the value.
+func (la *LockAnalysis) publishedByAtomic(f *Func, guarded types.Object) bool {
+	info := f.Info()
+	fl := newFlow(f)
+	var writes, stores []ast.Node
+	walkNoLit(f.Body, func(x ast.Node) bool {
+		switch t := x.(type) {
+		case *ast.AssignStmt:
+			for _, l := range t.Lhs {
+				if id, ok := l.(*ast.Ident); ok && info.Uses[id] == guarded {
+					writes = append(writes, t)
+				}
+			}
+		case *ast.CallExpr:
+			switch callName(info, t) {
+			case "sync/atomic.(*Int64).Store", "sync/atomic.(*Int64).Add", "sync/atomic.(*Int64).Swap", "sync/atomic.(*Int64).CompareAndSwap":
+				if _, isCond := la.p.Parent(t).(*ast.IfStmt); !isCond {
+					stores = append(stores, t)
+				}
+			}
+		}
+		return true
+	})
+	if len(writes) == 0 || len(stores) == 0 {
+		return false
+	}
+	for _, st := range stores {
+		for _, w := range writes {
+			if !fl.Dominates(w, st) {
+				return false
+			}
+		}
+	}
+	return true
 }
